@@ -103,7 +103,7 @@ def lex(src):
         elif c == "'":
             # char literal or lifetime
             if i + 2 < n and src[i + 1] == "\\":
-                i += 2
+                i += 3   # the quote, the backslash and the escaped character (which may be a quote itself: '\\'')
                 while i < n and src[i] != "'":
                     i += 2 if src[i] == "\\" else 1
                 i += 1
